@@ -45,11 +45,25 @@ def getreader (reg : Reg) (ext : String) (acc : Nat → Ans) : Reg × Except Str
 /-- `pncopen(path, format=name)` : the reader registered under that name -/
 def named (reg : Reg) (name : String) : Option Nat := rdictGet reg name
 
+/-- one step of a history: an auto-detecting open, or an open with the format named -/
+structure Open where
+  ext : String
+  acc : Nat → Ans
+  fmt : Option String := none
+
+/-- one open: registry afterwards and the reader used -/
+def openStep (reg : Reg) (o : Open) : Reg × Except String Nat :=
+  match o.fmt with
+  | none => getreader reg o.ext o.acc
+  | some name => (reg, match named reg name with
+      | some r => .ok r
+      | none => .error "KeyError")
+
 /-- run a history of opens; returns the registry afterwards and each chosen reader -/
-def runHist (reg : Reg) : List (String × (Nat → Ans)) → Reg × List (Except String Nat)
+def runHist (reg : Reg) : List Open → Reg × List (Except String Nat)
   | [] => (reg, [])
-  | (ext, acc) :: rest =>
-    let (reg', r) := getreader reg ext acc
+  | o :: rest =>
+    let (reg', r) := openStep reg o
     let (reg'', rs) := runHist reg' rest
     (reg'', r :: rs)
 
@@ -63,12 +77,13 @@ def parseReg (s : String) : Option Reg :=
 def mkAcc (yes raises : List Nat) : Nat → Ans :=
   fun r => if raises.contains r then .raises else if yes.contains r then .yes else .no
 
-/-- one open: `ext/yesIds/raiseIds` with ids separated by `+` (`-` for none / no extension) -/
-def parseOpen (s : String) : Option (String × (Nat → Ans)) :=
+/-- one open: `ext/yesIds/raiseIds/format` with ids separated by `+` (`-` for none) -/
+def parseOpen (s : String) : Option Open :=
   let ids (t : String) : Option (List Nat) := if t = "-" then some [] else (t.splitOn "+").mapM parseNat
   match s.splitOn "/" with
-  | [e, y, r] => match ids y, ids r with
-    | some ys, some rs => some (if e = "-" then "" else e, mkAcc ys rs)
+  | [e, y, r, f] => match ids y, ids r with
+    | some ys, some rs => some { ext := if e = "-" then "" else e, acc := mkAcc ys rs,
+                                 fmt := if f = "-" then none else some f }
     | _, _ => none
   | _ => none
 
